@@ -15,6 +15,7 @@ import (
 	"github.com/GuanceCloud/platypus/pkg/inimpl/guancecloud/input"
 	"pgregory.net/rapid"
 	"verifharness/evid"
+	"verifharness/gen"
 	"verifharness/impl"
 	"verifharness/probe"
 	"verifharness/rk"
@@ -61,7 +62,15 @@ func valText(v any) string {
 	case string:
 		return fmt.Sprintf("%q", x)
 	case []any:
-		return "[1, \"a\"]"
+		var parts []string
+		for _, e := range x {
+			if es, ok := e.(string); ok {
+				parts = append(parts, gen.QuoteDouble(es))
+			} else {
+				parts = append(parts, valText(e))
+			}
+		}
+		return "[" + strings.Join(parts, ", ") + "]"
 	case map[string]any:
 		return "{\"a\": 1}"
 	case unencodable:
@@ -72,7 +81,9 @@ func valText(v any) string {
 
 type unencodable struct{} // a list that JSON cannot encode: [1, inf]
 
-var addVals = []any{nil, true, int64(5), 2.5, 0.0, math.Copysign(0, -1), "s", "2021-05-27 06:54:14.760 UTC", []any{int64(1), "a"}, map[string]any{"a": int64(1)}, unencodable{}, "NaN", "-Infinity", "1e999", "12abc"}
+var addVals = []any{nil, true, int64(5), 2.5, 0.0, math.Copysign(0, -1), "s", "2021-05-27 06:54:14.760 UTC", []any{int64(1), "a"}, map[string]any{"a": int64(1)}, unencodable{},
+	// lists of plain strings: invalid UTF-8, the line and paragraph separators (what an encoder escapes or replaces)
+	[]any{"a\xffb", "x"}, []any{"l\u2028s", "p\u2029"}, []any{"\xf0\x9f", "ok", ""}, []any{"plain", "strings"}, "NaN", "-Infinity", "1e999", "12abc"}
 
 func allOps() []op {
 	var out []op
